@@ -571,7 +571,7 @@ def workloads(thorough, rng=None):
     ws = []
     if not thorough:
         ws.append(("scheme-all-phases", "scm", [], ["all", "150", "1"], False, ("windows", 7, 12000, 1600000)))
-        emb = [("emb-steady", [65536, 0, 60000, 11, 150, 0], True), ("emb-cycles", [65536, 0, 60000, 12, 400, 1], False),
+        emb = [("emb-hole-stream", [131072, 0, 4, 17, 16, 5], False), ("emb-steady", [65536, 0, 60000, 11, 150, 0], True), ("emb-cycles", [65536, 0, 60000, 12, 400, 1], False),
                ("emb-oom", [65536, 1500000, 50000, 13, 300, 2], False), ("emb-steady-big", [262144, 0, 60000, 14, 1500, 0], True),
                ("emb-growth-stream", [65536, 0, 4, 15, 16, 3], False), ("emb-policy-stream", [262144, 0, 0, 16, 16, 4], False)]
     else:
@@ -589,6 +589,8 @@ def workloads(thorough, rng=None):
             emb.append(("emb-oom-%d" % sd, [65536, 800000 + 300000 * sd, 100000, 300 + sd, 300, 2], False))
             if sd < 3:
                 emb.append(("emb-policy-stream-%d" % sd, [262144 << sd, 0, 0, 500 + sd, 16, 4], False))
+            if sd < 4:
+                emb.append(("emb-hole-stream-%d" % sd, [65536 << sd, 0, 4 + 2 * sd, 600 + sd, 16, 5], False))
             if sd < 6:
                 emb.append(("emb-growth-stream-%d" % sd, [65536 << (sd % 2), 0, 3 + sd % 3, 400 + sd, 16, 3], False))
     for (nm, a, steady) in emb:
@@ -1679,6 +1681,32 @@ def run_members_eval(ctx, d, outdir):
         ctx.broken("members:workload-not-realised", "the embedding workload kept too little alive to mean anything: %s" % agg, replay=replay)
 
 
+def judge_holes(ctx, name, w):
+    """hole stream (embed_c10 mode 5): the implementation-level reading of fast_path_count / exact_fit_refilled.  After a
+    collection that left `exact` holes of exactly one object of the class (capacity `cap` objects in all, counted by the
+    harness on the public free lists) the next `cap` allocations of that size must all be served without a collection and
+    without a new segment, and then no chunk that can take one may be left."""
+    rounds = 0
+    for line in w["out"].split("\n"):
+        if not line.startswith("HOLES "):
+            continue
+        f = dict(kv.split("=") for kv in line.split()[1:])
+        rounds += 1
+        cap, done, exact, gcs = int(f["cap"]), int(f["refilled"]), int(f["exact"]), int(f["collections"])
+        h0, h1 = f["heaps"].split("/")
+        ctx.count(done, key=(name, "holes", f["round"]), nontrivial=True)
+        if done != cap or gcs != 0 or h0 != h1 or f["left"] != "0":
+            ctx.violation("recycle:free-holes-not-refilled", input="%s round %s: full heap of %s-byte objects, every other one dropped and collected: %d holes of exactly %s bytes, "
+                          "capacity %d objects" % (name, f["round"], f["size"], exact, f["size"], cap),
+                          expected="the next %d allocations of %s bytes are served from the free lists: no collection, no new segment, no usable chunk left (fast_path_count)" % (cap, f["size"]),
+                          observed="%d served before the first collection/growth; collections=%d, segments %s -> %s, usable chunk left=%s" % (done, gcs, h0, h1, f["left"]),
+                          replay=w["replay"] + "   # prints: " + line)
+        elif exact < 100:
+            ctx.broken("hole-stream:not-realised", "workload %s round %s produced only %d exact-fit holes (%s)" % (name, f["round"], exact, line))
+    if rounds == 0 and w["rc"] == 0:
+        ctx.broken("hole-stream:not-realised", "workload %s printed no HOLES line" % name)
+
+
 def guarded_build(ctx, limit=300):
     """The repository's make runs the freshly built chibi-scheme (chibi-ffi on the .stub files): with a damaged
     allocator that can hang for ever.  So the shared scratch build runs in a child session under a time limit;
@@ -1846,6 +1874,11 @@ def run(ctx):
         if kind == "scm" and ctx.violations and not ctx.thorough:
             ctx.note("Scheme workload %s skipped: the embedding workloads already produced violations" % name)
             continue
+        if kind == "emb" and ctx.violations and not ctx.thorough and name not in ("emb-hole-stream", "emb-steady"):
+            # a damaged allocator can make every remaining workload run into its time limit and leave traces of millions
+            # of allocations (seen: 120 s for the policy stream alone); one concrete failing history is enough
+            ctx.note("embedding workload %s skipped: earlier workloads already produced violations" % name)
+            continue
         w = run_workload(d, name, kind, cargs, sargs, outdir, timeout=(30 if kind == "emb" else 900))
         if not os.path.exists(w["trace"]):
             ctx.broken("workload:" + name, "workload left no trace: rc=%s %s" % (w["rc"], w["err"][-300:]))
@@ -1876,6 +1909,8 @@ def run(ctx):
         if "growth-stream" in name and S.get("big_grows", 0) < 2 and w["rc"] == 0:
             ctx.broken("growth-stream:no-request-decided-growth", "workload %s produced %d growths decided by a request larger than 4/3 of the last segment"
                        % (name, S.get("big_grows", 0)))
+        if "hole-stream" in name:
+            judge_holes(ctx, name, w)
         if "policy-stream" in name and w["rc"] == 0 and ("LAYOUT ok" not in w["out"] or S["slow"] < 4) and not ctx.violations:
             ctx.broken("policy-stream:not-realised", "workload %s did not realise its layout / its four slow paths (%s, %d slow paths): the four "
                        "coalescing cases no longer decide a growth question each" % (name, w["out"].split("\n")[0], S["slow"]))
